@@ -268,6 +268,7 @@ Proof.
 Qed.
 Theorem def_strip_internal : forall c : pcfg,
   pc_handlers (strip_internal c) = pc_handlers c /\ pc_fs (strip_internal c) = pc_fs c /\ pc_tree (strip_internal c) = pc_tree c /\
+  pc_host_header (strip_internal c) = pc_host_header c /\
   pc_cache (strip_internal c) = pc_cache c /\ pc_fcache (strip_internal c) = pc_fcache c /\ pc_default_ext (strip_internal c) = pc_default_ext c /\
   h_prepare_single (pc_host (strip_internal c)) = filter (fun k => negb (has_dot_slash_b k)) (h_prepare_single (pc_host c)) /\
   h_path (pc_host (strip_internal c)) = h_path (pc_host c) /\ h_public (pc_host (strip_internal c)) = h_public (pc_host c) /\
@@ -393,7 +394,7 @@ Definition ex_pcfg : pcfg :=
                    h_ext_default := B "html"; h_folder_default := B "index.html";
                    h_prepare_single := [B "/./cors_fail"; B "/./cors_options"] |};
      pc_fs := read_path (fixture_root ex_files) (fixture_root ex_files); pc_tree := fixture_tree ex_files;
-     pc_handlers := [] |}.
+     pc_host_header := B "localhost"; pc_handlers := [] |}.
 Example ex_history :
   run_history ex_pcfg empty_state
     [OReq (B "GET") (B "/") 0; OReq (B "GET") (B "/index.html") 0; OReq (B "GET") (B "/../secret.txt") 0;
@@ -420,8 +421,13 @@ Example ex_fronts :
      XL [XN 404; XB (B "E404"); XL [XB (B "pf")]; XL [XB (B "host/errors/404.html")]];
      XL [XN 200; XB (B "INDEX"); XL []; XL []]; XL [XN 96]] /\
   run_history_with front_h1 (fmt_std ex_pcfg) ex_pcfg empty_state [OReq (B "GET") (B "*") 1; OReq (B "GET") (B "a b") 0]
-  = [XL [XN 403; XB cors_denied; XL []; XL []]; XL [XN 96]].
-Proof. split; vm_compute; reflexivity. Qed.
+  = [XL [XN 403; XB cors_denied; XL []; XL []]; XL [XN 96]] /\
+  (* a part of the path in the Host header *)
+  run_history_with (front_h1_h (B "localhost/..")) (fmt_std ex_pcfg) ex_pcfg empty_state [OReq (B "GET") (B "/secret.txt") 0]
+  = [XL [XN 400; XB errpage; XL []; XL []]] /\
+  uri_of (B "localhost/..") (B "/secret.txt") = Some (B "/../secret.txt", None) /\
+  uri_of (B "localhost?") (B "/../secret.txt") = Some (B "/", Some (B "/../secret.txt")).
+Proof. repeat split; vm_compute; reflexivity. Qed.
 Example ex_history_hyps :
   benign_host (pc_host ex_pcfg) /\ wf_pos (fixture_root ex_files) /\
   resolve_path (fixture_root ex_files) (fixture_root ex_files)
